@@ -28,4 +28,6 @@ CHECK = {'title': 'External commands cannot hang or crash fan2go',
           {'pkg': 'internal/fans', 'test': 'TestVX_C19fans', 'shards_quick': 1, 'shards_thorough': 1, 'gomaxprocs': '8',
            'timeout_quick': 240, 'timeout_thorough': 600},
           {'pkg': 'internal/sensors', 'test': 'TestVX_C19sensors', 'shards_quick': 1, 'shards_thorough': 1, 'gomaxprocs': '8',
-           'timeout_quick': 240, 'timeout_thorough': 600}]}
+           'timeout_quick': 240, 'timeout_thorough': 600},
+          {'pkg': 'internal/util', 'test': 'TestVX_C19race', 'race': True, 'shards_quick': 1, 'shards_thorough': 1, 'gomaxprocs': '8',
+           'env': {'GORACE': 'log_path=race halt_on_error=0 exitcode=0 history_size=3'}, 'timeout_quick': 240, 'timeout_thorough': 900}]}
